@@ -14,9 +14,10 @@ EXTENDS Naturals, Sequences, FiniteSets, TLC
 Sigs == {"none", "trusted", "untrusted", "tampered", "wrapDiff", "wrapSame", "relocated"}
 Cfgs == [skip : BOOLEAN, issuerCfg : BOOLEAN]
 FieldsOK == [version |-> "ok", dest |-> "ok", issuer |-> "ok", status |-> "ok"]
-Same == [kind : {"req"}, entry : {"req"}, version : {"ok", "absent", "wrong"}, dest : {"ok", "absent", "other"},
+\* dest = "near": a near miss of the SLO URL (query, fragment, userinfo, host case, trailing slash)
+Same == [kind : {"req"}, entry : {"req"}, version : {"ok", "absent", "wrong"}, dest : {"ok", "absent", "other", "near"},
          issuer : {"ok", "absent", "other"}, status : {"ok"}, sig : Sigs] \cup
-        [kind : {"resp"}, entry : {"resp"}, version : {"ok", "absent", "wrong"}, dest : {"ok", "absent", "other"},
+        [kind : {"resp"}, entry : {"resp"}, version : {"ok", "absent", "wrong"}, dest : {"ok", "absent", "other", "near"},
          issuer : {"ok", "absent", "other"}, status : {"ok", "nostatus", "nocode", "fail"}, sig : Sigs]
 Confused == { x \in [kind : {"req", "resp", "sso"}, entry : {"req", "resp", "sso"}, version : {"ok"}, dest : {"ok"},
                      issuer : {"ok"}, status : {"ok"}, sig : {"none", "trusted"}] : x.kind # x.entry }
@@ -33,7 +34,7 @@ Verify(in) == CASE in.sig = "none"      -> "missing"
                 [] OTHER                -> "error"       \* untrusted: certificate; tampered, wrapSame, relocated: digest
 
 FieldCheck(cfg, in) ==
-   IF in.dest = "other" THEN E("ErrInvalidValue", "destination")
+   IF in.dest \in {"other", "near"} THEN E("ErrInvalidValue", "destination")
    ELSE IF in.version # "ok" THEN E("ErrInvalidValue", "samlversion")
    ELSE IF in.issuer = "absent" THEN E("ErrMissingElement", "issuer")
    ELSE IF cfg.issuerCfg /\ in.issuer = "other" THEN E("ErrInvalidValue", "issuer")
@@ -54,7 +55,7 @@ ModelOut(cfg, in) ==
 ---------------------------------------------------------------------------
 V(t, names) == [type |-> t, names |-> names]
 Viol(cfg, in) ==
-   (IF in.dest = "other" THEN {V("ErrInvalidValue", {"destination"})} ELSE {}) \cup
+   (IF in.dest \in {"other", "near"} THEN {V("ErrInvalidValue", {"destination"})} ELSE {}) \cup
    (IF in.version # "ok" THEN {V("ErrInvalidValue", {"samlversion", "version"})} ELSE {}) \cup
    (IF in.issuer = "absent" THEN {V("ErrMissingElement", {"issuer"})} ELSE {}) \cup
    (IF cfg.issuerCfg /\ in.issuer = "other" THEN {V("ErrInvalidValue", {"issuer"})} ELSE {}) \cup
